@@ -282,7 +282,7 @@ def impl(case):
     ops = case["ops"]
     out, oracle = ["ok"], []
     tg = _Tags()
-    d = tempfile.mkdtemp(prefix="c01_")
+    d = tempfile.mkdtemp(prefix="c01_", dir=os.environ.get("C01_TMP") or None)
     rec = href = None
     raw = "*"
     try:
@@ -614,7 +614,19 @@ def gen_cases(ctx, quick=None):
 # ----------------------------------------------------------------------------- check
 
 
+def _tmp_root():
+    """one scratch directory per check run (workers killed on a timeout cannot clean up themselves)"""
+    import atexit
+
+    if not os.environ.get("C01_TMP"):
+        d = tempfile.mkdtemp(prefix="c01run_")
+        os.environ["C01_TMP"] = d
+        atexit.register(shutil.rmtree, d, ignore_errors=True)
+    return os.environ["C01_TMP"]
+
+
 def run(ctx):
+    _tmp_root()
     ctx.rule = ("cases: operation histories (set-dataset, create-group, delete, set-attr, del-attr, copy, move, commit+create-patch boundary) over "
                 "paths of depth <= 4 on 2-3 colliding keys per level (+ exotic printable-ASCII keys), 0-6 boundaries at random positions, with the "
                 "shapes named by the property spliced in as templates. Each history is applied to a real IH5Record and a real h5py.File in lock-step; "
@@ -638,10 +650,16 @@ def run(ctx):
         small = [dict(ops=h) for h in enum_small()]
         cases += small
         ctx.exhaustive_spaces.append("all %d histories of length <= 3 over the 6 paths of depth <= 2 on keys {a,b} with set/create-group/delete/set-attr/del-attr (one key, also on the root) and boundary" % len(small))
-    # long runs in chunks so that the driver input stays small
-    chunk = 2000
-    for i in range(0, len(cases), chunk):
-        ctx.correspond("overlay-vs-plain-vs-models", MOD, cases[i : i + chunk], lines, "drv_ov", compare=compare, timeout=20.0)
+    # a first small batch made of the named shapes only, then the rest in chunks; stop at the first
+    # chunk with oracle hits (the verdict is a VIOLATION anyway and hanging operations are costly)
+    smoke = [dict(ops=[list(o) for o in template(ctx.rng)] + [["patch"], ["set", "/c/x/y", "i1"]]) for _ in range(24)]
+    batches = [smoke] + [cases[i : i + 400] for i in range(0, len(cases), 400)]
+    cases = smoke + cases
+    for b in batches:
+        ctx.correspond("overlay-vs-plain-vs-models", MOD, b, lines, "drv_ov", compare=compare, timeout=20.0)
+        if ctx.oracle_hits:
+            ctx.notes.append("stopped after the first batch with oracle hits")
+            break
     ctx.dist["raw-containers-same"] += _raw_stats["same"]
     ctx.dist["raw-containers-differ(diagnostic)"] += _raw_stats["diff"]
     for c in cases:
@@ -672,7 +690,8 @@ def _fails_many(cands, want, timeout=15.0):
     """run all candidate op lists on the real code (parallel workers); list of oracle details / None"""
     from .. import pool
 
-    res = pool.run(MOD, "impl", [dict(ops=o) for o in cands], timeout=timeout)
+    _tmp_root()
+    res = pool.run(MOD, "impl", [dict(ops=o) for o in cands], timeout=timeout, startup=30.0)
     return [_oracle_of(r, want, timeout) for r in res]
 
 
@@ -698,7 +717,7 @@ def shrink(ctx, case, detail):
     best = first[0] or first[1]
     rounds = 0
     n = 2
-    while len(ops) >= 2 and rounds < 25:
+    while len(ops) >= 2 and rounds < (8 if want == "does-not-terminate" else 25):
         rounds += 1
         chunk = max(1, len(ops) // n)
         subsets = [ops[i : i + chunk] for i in range(0, len(ops), chunk)]
@@ -720,6 +739,7 @@ def search(ctx):
     """failing-input search after a broken obligation / correspondence: more seeds, oracle only"""
     from .. import pool
 
+    _tmp_root()
     for s in range(1, 4):
         sub = core.Ctx(ID, "quick", ctx.seed + 7919 * s)
         cases = gen_cases(sub, quick=True)
@@ -737,6 +757,8 @@ def search(ctx):
 
 def replay(ctx, rep):
     from .. import pool
+
+    _tmp_root()
 
     case = rep.get("case")
     if not case:
